@@ -1098,7 +1098,8 @@ class StrategyBase(Node):
 
         # Adjust prices for bid/offer paid if needed
         if self._bidoffer_set:
-            bidoffer = pd.DataFrame({x.name: x.bidoffers_paid for x in self.securities}).unstack()
+            # bid/offer paid is recorded in currency (multiplier included); prices are per unit
+            bidoffer = pd.DataFrame({x.name: x.bidoffers_paid / x.multiplier for x in self.securities}).unstack()
             prc += bidoffer / trades
 
         res = pd.DataFrame({"price": prc, "quantity": trades}).dropna(subset=["quantity"])
